@@ -256,6 +256,13 @@ func (p *parser) lowerNestingInRuleWithContext(rule css_ast.Rule, context *lower
 					offset = 0
 				}
 
+				// Stop as soon as the limit below is exceeded instead of generating
+				// every combination first
+				if n := len(selectors); n > oldSelectorsLen && n > 0xFF00 {
+					p.addExpansionError(rule.Loc, n)
+					return css_ast.Rule{}
+				}
+
 				// Do addition with carry on the indices across dimensions
 				carry := len(indices)
 				for carry > 0 {
